@@ -88,6 +88,11 @@ def fetch_schema_locations(source: Union['XMLResource', XMLSourceType],
     if not locations:
         raise XMLSchemaValueError("provided arguments don't contain any schema location hint")
 
+    if base_url is None:
+        # Location hints are accessed relatively to the XML source
+        # (e.g. the base directory of a sandbox).
+        base_url = resource.base_url
+
     namespace = resource.namespace
     for ns, location in sorted(locations, key=lambda x: x[0] != namespace):
         try:
